@@ -231,8 +231,13 @@ func (mv mapValue) PropertyValue(iv Value) Value {
 		return nilValue
 	}
 	var er reflect.Value
-	if ir.Type().AssignableTo(mr.Type().Key()) {
+	kt := mr.Type().Key()
+	switch {
+	case ir.Type().AssignableTo(kt):
 		er = mr.MapIndex(ir)
+	case ir.Kind() == reflect.String && kt.Kind() == reflect.String:
+		// a.b reads the entry that a["b"] reads, also when the key type is a named string type
+		er = mr.MapIndex(ir.Convert(kt))
 	}
 	switch {
 	case er.IsValid():
